@@ -534,6 +534,14 @@ func (s *SimTracer) WorkerGoid(wid int64) int64 {
 	return 0
 }
 
+// Armed reports whether the gate for key is closed (whether or not a
+// goroutine has reached it yet).
+func (s *SimTracer) Armed(key string) bool {
+	s.mu.Lock()
+	defer s.mu.Unlock()
+	return s.gates[key] != nil
+}
+
 func (s *SimTracer) Parked(key string) bool {
 	s.mu.Lock()
 	defer s.mu.Unlock()
